@@ -347,20 +347,27 @@ PROPS = {
     },
     "C17": {
         "level": "other",
-        "verus": [("config", None)],
-        "kani": {"quick": ["extractor_2rules_or1_and2"], "thorough": ["extractor_2rules_or2_and1", "extractor_matches_statement_2rules"]},
+        "verus": [("config", None), ("extractor", None)],
+        "kani": {"quick": [], "thorough": ["extractor_2rules_or1_and2", "extractor_2rules_or2_and1", "extractor_matches_statement_2rules"]},
         "family": ("c17", {"quick": [], "thorough": ["thorough"]}),
-        "technique": "contract-based deductive verification: Verus on ConfigFragment::merge; Kani on the real generic extractor code instantiated with a symbolic matcher (callee replaced by 'any answer')",
-        "explanation": "PARTIAL / BOUNDED.  Verus proves ConfigFragment::merge: the later document overrides each scalar setting that it sets and the rewrite rules are concatenated in order.  Kani runs the real "
+        "technique": "contract-based deductive verification: Verus on ConfigFragment::merge and on the whole rule engine (Extractor::extract, ExtractRule::extract, MatchOrExpr::extract, MatchAndExpr::extract, Fragment += and Fragment + Matched) extracted from /repo, "
+                     "generic over a matcher known only by its contract, for rule lists / OR-lists / AND-lists of EVERY length; thorough tier also Kani on the real generic code with a symbolic matcher (bounded)",
+        "explanation": "PARTIAL.  Verus proves ConfigFragment::merge: the later document overrides each scalar setting that it sets and the rewrite rules are concatenated in order.  Verus proves the rule engine against the statement written as "
+                       "recursive spec functions (group `extractor`; the iterator adapters try_fold / find_map / Option::map(|mut ..|) rewritten into their std definitions by rules R32-R34, the GAT polyfill <M as Entity>::T replaced by an opaque Copy type, R31): "
+                       "rules apply in list order each seeing the fragment as rewritten by the earlier ones; an OR-list matches if any element does (the first matching one); an element matches only if all its fields do, later captures overriding earlier ones; "
+                       "a matching rule's captures set payee and code, the rule's own payee overrides a captured one, its account replaces any earlier account (a rule without account keeps it), and the record is cleared (not pending) iff some matching "
+                       "account-assigning rule is not flagged pending - for any number of rules, elements and fields.  In the thorough tier Kani additionally runs the real "
                        "Extractor::extract / ExtractRule::extract / MatchOrExpr::extract / MatchAndExpr::extract / Fragment += / Fragment + Matched with a matcher whose answers are symbolic per payee seen, and compares all five "
                        "Fragment fields with the statement written as plain loops (rules in order each seeing the rewritten payee; OR = first matching element; AND = all fields; captures then rule payee override; account "
                        "replaces; cleared iff some matching account rule is not pending) for <= 2 rules x <= 2 OR x <= 2 AND.  NOT decided by proof: ConfigSet::select_impl (substring match, stable sort, fold), regexes, YAML: "
                        "these are exercised, bounded, by the c17 replay family (layered documents through load_from_yaml + select; rule lists of <= 3 rules through the real CSV import) against a twin of the statement.",
-        "units_doc": ["cli/src/import/config.rs: ConfigFragment::merge", "cli/src/import/extract.rs: Extractor::extract, ExtractRule::extract, MatchOrExpr::extract, MatchAndExpr::extract, AddAssign for Fragment, Add<Matched> for Fragment (Kani, thorough)"],
-        "assumptions": ["stand-ins for Encoding, AccountCommodityConfig, FormatSpec, RewriteRule (merge never looks inside)", "Option::or spec added by hand"],
-        "bounded": ["quick: 2 rules x 1 OR-element x <= 2 AND-fields (about 4 min of CBMC); thorough: 2 rules x <= 2 OR x 1 field, and <= 2 rules x <= 2 OR x <= 2 AND (about 26 min); names from {None, p1, p2}",
+        "units_doc": ["cli/src/import/config.rs: ConfigFragment::merge", "cli/src/import/extract.rs: Extractor::extract, ExtractRule::extract, MatchOrExpr::extract, MatchAndExpr::extract, AddAssign for Fragment, Add<Matched> for Fragment (Verus, all lengths; Kani, thorough, bounded)"],
+        "assumptions": ["stand-ins for Encoding, AccountCommodityConfig, FormatSpec, RewriteRule (merge never looks inside)", "Option::or spec added by hand",
+                        "R31: the matcher is any implementation of `captures` that is a function of (matcher, fragment so far, record) - regexes are stateless; the trait's GAT polyfill and its TryFrom constructor bound are dropped; lifetimes mapped to 'static",
+                        "R32-R34: Iterator::try_fold over Option, Iterator::find_map and Option::map replaced by their std definitions (early-exit loops / match); derive(Clone, Default) on Fragment restated"],
+        "bounded": ["thorough (Kani): 2 rules x 1 OR-element x <= 2 AND-fields; thorough: 2 rules x <= 2 OR x 1 field, and <= 2 rules x <= 2 OR x <= 2 AND (about 26 min); names from {None, p1, p2}",
                     "c17 family: base document + every ordered selection of <= 3 of 7 documents x 5 file paths; every list of <= 2 (quick: a third of the 3-rule lists; thorough: all) of 8 rules x 6 CSV rows"],
-        "not_decided": ["ConfigSet::select_impl ordering and matching (bounded family only)", "regex matchers and capture groups (bounded family only)", "Income:/Expenses:Unknown fallback (decided under C16's Kani harness)"],
+        "not_decided": ["ConfigSet::select_impl ordering and matching (bounded family only)", "regex matchers and capture groups, construction of the matchers from the config (bounded family only)", "Income:/Expenses:Unknown fallback (family c16/c17)"],
     },
     "C18": {
         "level": "other",
